@@ -116,11 +116,13 @@ def run(chk, tier):
     # operator nests: every (parent, child, side) pair of the integer / comparison / Boolean operators, with variable and with
     # literal operands, so that at -Q2+ (library operations inlined) the nest reaches the C printer as one expression
     import opnest
-    nprogs = opnest.programs(chk.seed % 1000003, 99, per_prog=64)
+    nprogs = opnest.programs(chk.seed % 1000003, 99, per_prog=20)
     famn = progcheck.Family(chk, nprogs, "operator-nests", workers=vlib.NCPU, timeout=1500)
     nroutes = [r_ for r_ in routes if r_[2] in ((2,) if tier == "quick" else levels) and (tier != "quick" or r_[1] != "ao")]
     merge_agree(agree, progcheck.replay(chk, b, famn, nroutes, wd, agree_group=level_of))
-    per["operator-nests"] = sum(len(p_["funs"]) for p_ in nprogs)
+    per["operator-nests"] = sum(len(p_["funs"]) for p_ in famn.replayable)
+    if len(famn.replayable) < len(nprogs):
+        raise vlib.MachineryError("operator-nest programs not evaluated to the end: %s" % famn.status_count)
     # failed assertions: `assert` is in the family as an opt-in feature.  -Qdel-assert (documented, on from -Q2) deletes
     # assertions, so the specification is evaluated twice (AldorSem's DelAssert) and each level is compared with its own
     na = 12 if tier == "quick" else 300
